@@ -24,6 +24,7 @@ modified-collections set).
         forward code mutates in place afterwards.
  STALE  an undo closure reads no variable that the forward code assigns inside a loop (it would see the value of the
         last iteration, not of the item it is undoing) unless the closure's own loop rebinds it.
+ POS     a save-queue position (_save_pos_ or a local given it) is compared (is None / == n), never tested for truth: 0 is a position.
 """
 NOT_DECIDED = "semantic equality of the whole session snapshot; failures raised by user hooks or the database during flush"
 
